@@ -61,13 +61,17 @@ def main():
                   [(4, 4, 0), (3, 3, 2), (1, 1, 6), (2, 2, 4)],          # r_x = r_y != r_z
                   [(8, 0, 0), (6, 1, 1), (2, 3, 3), (0, 4, 4)],          # r_y = r_z != r_x
                   [(1, 2, 5), (5, 2, 1), (4, 0, 4), (0, 0, 8), (3, 1, 4)]]
-        dsel = [rng.choice(st) for st in strata] + rng.sample(dirs, 1 if tier == 'quick' else 9)
+        zero_dir = rng.choice([(0, 4, 4), (4, 0, 4), (4, 4, 0), (0, 2, 6), (6, 0, 2)])     # a zero component, given as int 0 below
+        dsel = [rng.choice(st) for st in strata] + [zero_dir] + rng.sample(dirs, 1 if tier == 'quick' else 9)
         dsel = list(dict.fromkeys(dsel))
-        rsel = rng.sample(rates, 3 if tier == 'quick' else 6)
+        rsel = sorted(set([16] + rng.sample(rates, 3 if tier == 'quick' else 6)))      # the upper end of the range always
         # ONE model object per (direction, deformation) used on all sizes; ONE code object per size used by all models
         codes = {s: klass(*s) for s in sizes}
         for (a, b, c) in dsel:
             rx, ry, rz = a / 8, b / 8, c / 8
+            if (a, b, c) == zero_dir or rng.random() < 0.5:
+                # whole numbers written as Python ints, as a user would: PauliErrorModel(0, 0.5, 0.5), error_rate=1
+                rx, ry, rz = [int(v) if float(v).is_integer() else v for v in (rx, ry, rz)]
             for (nm, ax) in choices:
                 kw = {'deformation_axis': ax} if ax else {}
                 em = PauliErrorModel(rx, ry, rz, deformation_name=nm, deformation_kwargs=kw)
@@ -83,6 +87,8 @@ def main():
                             dicts.append(d['X'] + d['Y'] + d['Z'])
                     for pk in rsel:
                         p = pk / 16
+                        if float(p).is_integer() and isinstance(rx, int):
+                            p = int(p)
                         pi, px, py, pz = em.probability_distribution(code, p)
                         rec = {'cls': cls, 'size': list(s), 'name': nm, 'axis': ax, 'dir': [a, b, c], 'p16': pk, 'n': n,
                                'dicts': dicts,
@@ -173,7 +179,8 @@ def main():
                             res['bp'].append({'cls': cls, 'size': list(s0), 'name': nm, 'axis': ax, 'dir': [a, b, c], 'p16': pk,
                                               'channel_update': cu, 'error': '%s: %s' % (type(ex).__name__, ex)})
     # C18: error_probability on ALL errors of tiny codes, exact; log form
-    tiny = [('RotatedPlanar2DCode', (2, 2)), ('Planar2DCode', (2, 2)), ('Color666PlanarCode', (1, 1))]
+    tiny = [('RotatedPlanar2DCode', (2, 2)), ('Planar2DCode', (2, 2)), ('Color666PlanarCode', (1, 1)),
+            ('RhombicPlanarCode', (2, 2, 1))]        # 5 qubits, a deformation that depends on the POSITION of a qubit
     if tier == 'thorough':
         tiny += [('RotatedPlanar2DCode', (2, 3)), ('Toric2DCode', (2, 2)), ('Color488Code', (1, 1))]
     for cls, s in tiny:
@@ -206,21 +213,33 @@ def main():
                             exp = -math.inf if f == 0 else math.log(f)
                             if not ((lg == exp) or (math.isfinite(lg) and math.isfinite(exp) and abs(lg - exp) <= 1e-9 * max(1.0, abs(exp)))):
                                 logs_bad = {'error_bits': v, 'log': lg, 'expected': exp}
-                    res['probs'].append({'cls': cls, 'size': list(s), 'name': nm, 'axis': ax, 'dir': [a, b, c], 'p16': pk, 'n': n,
+                    ddicts = []
+                    for q_ in code.qubit_coordinates:
+                        if nm is None:
+                            ddicts.append('XYZ')
+                        else:
+                            d_ = code.get_deformation(q_, nm, **kw)
+                            ddicts.append(d_['X'] + d_['Y'] + d_['Z'])
+                    res['probs'].append({'cls': cls, 'size': list(s), 'name': nm, 'axis': ax, 'dir': [a, b, c], 'p16': pk, 'n': n, 'dicts': ddicts,
                                          'dists': [[fr(pi[i]), fr(px[i]), fr(py[i]), fr(pz[i])] for i in range(n)],
                                          'vals': vals, 'total': [tot.numerator, tot.denominator], 'log_bad': logs_bad})
     # random errors on larger codes: product form and log form (float tolerance)
-    for cls, s in [('Toric2DCode', (4, 3)), ('Planar3DCode', (2, 3, 2)), ('XCubeCode', (2, 2, 3)), ('Color488Code', (2, 2))]:
+    for cls, s in [('Toric2DCode', (4, 3)), ('Planar3DCode', (2, 3, 2)), ('XCubeCode', (2, 2, 3)), ('Color488Code', (2, 2)),
+                   ('Color488Code', (1, 1)), ('Color666ToricCode', (1, 1)), ('RhombicToricCode', (2, 2, 2)), ('RhombicPlanarCode', (2, 2, 2))]:
         klass = getattr(pc, cls)
         code = klass(*s)
         n = code.n
         choices = [(None, None)] + [(nm, ax) for nm in klass.deformation_names for ax in dc.AXES.get(cls, [None])]
         for (nm, ax) in choices:
             kw = {'deformation_axis': ax} if ax else {}
-            a, b, c = rng.choice(dirs)
+            a, b, c = rng.choice([d_ for d_ in dirs if d_[0] != d_[2]])       # r_x != r_z: a relabelling of X and Z is visible
             em = PauliErrorModel(a / 8, b / 8, c / 8, deformation_name=nm, deformation_kwargs=kw)
             p = rng.choice([1, 3, 8, 13]) / 16
-            pi, px, py, pz = em.probability_distribution(code, p)
+            # the STATED channel (not read from the implementation): direction, rate, deformation dictionary of each qubit
+            base_ = {'X': p * a / 8, 'Y': p * b / 8, 'Z': p * c / 8}
+            ddl = [code.get_deformation(q_, nm, **kw) if nm else {'X': 'X', 'Y': 'Y', 'Z': 'Z'} for q_ in code.qubit_coordinates]
+            pi = [1 - p] * n
+            px, py, pz = [base_[d_['X']] for d_ in ddl], [base_[d_['Y']] for d_ in ddl], [base_[d_['Z']] for d_ in ddl]
             for _ in range(6):
                 e = np.array([rng.randrange(2) for _ in range(2 * n)], dtype='uint8')
                 if rng.random() < 0.5:
